@@ -342,6 +342,26 @@ def prove_takes_slot(src_root, ex: Explorer):
     ex.run(path, 'takes-slot')
 
 
+def prove_cycle_on_change(src_root, ex: Explorer):
+    """The selection is re-run by the management cycle; a slot that becomes free (an initialising upload is refused or fails, an upload
+    completes, ...) or a transfer that becomes eligible must lead to a cycle.  on_transfer_state_changed - the manager is a state
+    listener of every transfer (C17.add / read_cache wiring) - requests a TRANSFER_CHANGE cycle for EVERY transition (exhaustive over the
+    pairs of states)."""
+    def path(ctx: Ctx):
+        it = mk(src_root, ctx)
+        ST = cls(it, 'transfer.state', 'TransferState.State')
+        members = ST.enum_members
+        old = members[ctx.choose(len(members), 'old')]
+        new_ = members[ctx.choose(len(members), 'new')]
+        flags = []
+        it.hooks[f'{MGR}:TransferManager.request_management_cycle'] = lambda it2, f, a, k: flags.append(a[1])
+        mgr = new(it, MGR, 'TransferManager')
+        run(it, it.getattr(mgr, 'on_transfer_state_changed'), Stub('transfer'), old, new_)
+        ctx.prove(f'C05.cycle-on-change[{old.name}->{new_.name}]', len(flags) >= 1 and all(getattr(f, 'name', None) == 'TRANSFER_CHANGE' for f in flags),
+                  'a state change of a transfer does not request a management cycle: a freed slot is not given to the next queued upload')
+    ex.run(path, 'cycle-on-change')
+
+
 def prove_slot_released(src_root, ex: Explorer):
     """A started transfer is skipped by the next selections through its task handle; the handle has to be cleared when the task ends,
     otherwise an upload that went back to QUEUED is never started again.  manage_transfers must register the done-callback that clears
@@ -355,7 +375,7 @@ def prove_slot_released(src_root, ex: Explorer):
 
 
 def items(src_root, tier):
-    return [('step', None), ('rank', None), ('slots', None), ('takes-slot', None), ('slot-released', None)] + [('bounded', ('selection', n)) for n in (1, 2)] + [('bounded', ('manage', n)) for n in (1, 2)]
+    return [('step', None), ('rank', None), ('slots', None), ('takes-slot', None), ('slot-released', None), ('cycle-on-change', None)] + [('bounded', ('selection', n)) for n in (1, 2)] + [('bounded', ('manage', n)) for n in (1, 2)]
 
 
 def run_item(src_root, item, tier):
@@ -373,6 +393,8 @@ def run_item(src_root, item, tier):
             prove_takes_slot(src_root, ex)
         elif kind == 'slot-released':
             prove_slot_released(src_root, ex)
+        elif kind == 'cycle-on-change':
+            prove_cycle_on_change(src_root, ex)
         elif kind == 'bounded':
             prove_bounded(src_root, ex, res, arg[0], arg[1])
     except Unsupported as e:
